@@ -149,6 +149,9 @@ def check_criteria(x, p, name, tag):
 
 
 def replay(rep):
+    if rep.get('replay', {}).get('form') == 'routes':
+        from props import _estimators as E_
+        return E_.replay_routes(rep['replay'])
     if rep['replay'].get('protocol') == 'values_only':
         from props import _purity
         return _purity.replay_protocol(rep['replay'])
@@ -173,6 +176,9 @@ def run(ctx):
     from spectrum.burg import _arburg2
     rng = ctx.rng
     ctx.check_theorems('Properties/C13.v')
+    # the estimate an object holds does not depend on the history that gave it its data and settings (every route of _estimators.via)
+    from props import _estimators as E_
+    E_.class_route_stream(ctx, ['pburg'], 'routes')
     loopir_tie(ctx, ['arburg'])      # IR programs regenerated from the source vs the model: exact, zero tolerance
 
     cases = []; meta = []
